@@ -191,7 +191,8 @@ def evaluate(tier, seeds, driver, tagname='', noschema=False):
         rc, errs, tail = cargo_run(d, 'target-c18', cmd_build)
         by_mod, lost = cp.failing_modules(errs, ranges)
         if rc != 0 and not errs:
-            disagreements.append({'what': 'batch %s: cargo failed without diagnostics: %s' % (bname, tail[-300:])})
+            # a timeout or a failed build of borsh itself: no verdict about any item of the batch (NOT "everything compiles")
+            raise CheckBroken('batch %s: cargo failed (rc %s) without a diagnostic: %s' % (bname, rc, tail[-300:]))
         if lost:
             disagreements.append({'what': 'batch %s: %d diagnostics could not be attributed, first: %s' % (bname, len(lost), lost[0][:200])})
         stats['batches'][bname] = {'items': len(cs), 'failed_to_compile': len([1 for c in cs if by_mod.get(c['id'])])}
